@@ -88,7 +88,7 @@ func genC08(seed int64, tier string) *Scenario {
 	}
 	if r.Intn(5) == 0 {
 		// a file whose name the editor has to percent-encode in every URI it sends
-		special := []string{"my dir/f g.lua", "mod+x/a+b.lua", "ünï/文件.lua", "sub/d~(1).lua"}[r.Intn(4)]
+		special := []string{"my dir/f g.lua", "mod+x/a+b.lua", "ünï/文件.lua", "sub/d~(1).lua", "lib/c.v2.lua", "lib/c.v2.lua"}[r.Intn(6)] // the last: a second dot in a module's file name
 		names = append(names, special)
 		sc.Knobs["named"] = special
 	}
